@@ -16,11 +16,11 @@ gvars == <<vars, hist>>
 FieldSeq == <<"SessionsCap", "UpRate", "DownRate", "UpCredit", "DownCredit", "ExpiryTime">>
 
 \* a record as six cells in FieldSeq order: <<v>> written, <<>> never written; a missing user is <<>>
-Cells(r)   == [i \in 1..6 |-> IF FieldSeq[i] \in DOMAIN r THEN <<r[FieldSeq[i]]>> ELSE <<>>]
+Cells(r)   == [i \in 1..6 |-> IF r[FieldSeq[i]] # Absent THEN <<r[FieldSeq[i]]>> ELSE <<>>]
 Snap(d)    == [u \in UIDs |-> IF Has(d, u) THEN Cells(d[u]) ELSE <<>>]
 
 \* body of a mismatching POST: the replay sends values that occur nowhere else
-MismatchW == [f \in Fields |-> 7]
+MismatchW == Only(Fields, 7)
 
 Entry(l, pre, d) ==
   [o |-> l.op, p |-> l.pu, b |-> l.bu, w |-> Cells(l.w), up |-> l.up, dn |-> l.dn, ok |-> l.ok,
@@ -44,6 +44,11 @@ GNext ==
   /\ hist' = Append(hist, Entry(last', db, db'))
 
 GSpec == GInit /\ [][GNext]_gvars
+
+\* the consumer results recorded for the step just taken (ConsumersTotal of UserDB, already evaluated)
+GenNoPanic == hist # <<>> =>
+  LET e == hist[Len(hist)] IN
+  \A u \in UIDs : e.c[u] # "panic" /\ e.a[u] # "panic" /\ "panic" \notin e.t[u] /\ "panic" \notin e.r
 
 Emit == nops = MaxOps => PrintT(<<"C18BEHAVIOUR", ToJson([steps |-> hist])>>)
 =============================================================================
